@@ -508,7 +508,7 @@ pub fn install_quiet_panic_hook() {
             .map(|l| format!("{}:{}", l.file(), l.line()))
             .unwrap_or_default();
         if std::env::var("VERIF_SHOW_PANICS").is_ok() {
-            eprintln!("panic: {msg} at {loc}");
+            eprintln!("panic: {msg} at {loc}\n{}", std::backtrace::Backtrace::force_capture());
         }
         LAST_PANIC.with(|p| *p.borrow_mut() = Some(format!("{msg} @ {loc}")));
     }));
